@@ -61,12 +61,16 @@ def trace_fn(ctx, world):
     def is_conj(a):
         return a.op == "bool" and a.opname == "and" and len(a.vals) == 2 and any(is_isbox(atom(v)[0]) and atom(v)[1] for v in a.vals) and any(is_eq(atom(v)[0]) and atom(v)[1] for v in a.vals)
 
+    def is_disj(a):
+        # De Morgan: `not isbox(end) or end._trace != start._trace` is the negation of the conjunction
+        return a.op == "bool" and a.opname == "or" and len(a.vals) == 2 and any(is_isbox(atom(v)[0]) and not atom(v)[1] for v in a.vals) and any(is_eq(atom(v)[0]) and not atom(v)[1] for v in a.vals)
+
     cs = cases(unseq(r))
     dep, indep, odd = [], [], []
     for c in cs:
         if c.pol(is_isbox) is True and c.pol(is_eq) is True:
             dep.append(c)
-        elif c.pol(is_conj) is False or c.pol(is_isbox) is False or (c.pol(is_isbox) is True and c.pol(is_eq) is False):
+        elif c.pol(is_conj) is False or c.pol(is_disj) is True or c.pol(is_isbox) is False or (c.pol(is_isbox) is True and c.pol(is_eq) is False):
             indep.append(c)
         else:
             odd.append(c)
@@ -379,7 +383,10 @@ def find_top(ctx, world):
         k = classify(c)
         seen.add(k)
         if k == "reset":
-            ok = c.leaf.op == "list" and len(c.leaf.elts) == 1 and pair(c.leaf.elts[0])
+            from ..tutil import fold_appends
+
+            lf = fold_appends(c.leaf)  # `boxes = []` followed by the shared `boxes.append(pair)` is `[pair]`
+            ok = lf.op == "list" and len(lf.elts) == 1 and pair(lf.elts[0])
             if not ok:
                 problems_reset.append(f"on a strictly greater id the list becomes {str(c.leaf)[:60]}")
         elif k == "append":
@@ -709,6 +716,112 @@ REG_WRITERS = {
 }
 
 
+# setters of process-global state OUTSIDE the library (NumPy's floating-point error state and print options, the
+# warnings filters, interpreter limits, the global RNGs): what one call leaves behind every later call inherits
+EXTERNAL_SETTERS = {
+    "numpy.seterr", "numpy.seterrcall", "numpy.setbufsize", "numpy.set_printoptions", "numpy.random.seed", "numpy.random.set_state",
+    "warnings.simplefilter", "warnings.filterwarnings", "warnings.resetwarnings", "sys.setrecursionlimit", "sys.settrace", "sys.setprofile",
+    "locale.setlocale", "random.seed", "random.setstate", "os.chdir", "os.putenv", "gc.disable", "gc.enable", "gc.set_threshold",
+}
+RESTORING_CONTEXTS = {"numpy.errstate", "numpy.printoptions", "warnings.catch_warnings"}
+
+
+def _external_setter_sites(repo, mod, tree):
+    """(call node, qualified name, protected?) for every call of an external state setter in the tree; a call is
+    protected when a `finally` of the same function calls the same setter again (the restore) and the call sits in that
+    try's body, in its finally, or directly before the try - or when it is inside `with errstate/printoptions/
+    catch_warnings`"""
+    out = []
+    for x in ast.walk(tree):
+        if not isinstance(x, ast.Call):
+            continue
+        r = repo.resolve_expr(mod, x.func)
+        if r is None or r.qual not in EXTERNAL_SETTERS:
+            continue
+        prot = False
+        # enclosing restoring context manager / enclosing try with a restoring finally
+        p, child = getattr(x, "_parent", None), x
+        while p is not None and not isinstance(p, (ast.FunctionDef, ast.AsyncFunctionDef, ast.Lambda, ast.Module)):
+            if isinstance(p, ast.With) and any((lambda rr: rr is not None and rr.qual in RESTORING_CONTEXTS)(repo.resolve_expr(mod, it.context_expr.func if isinstance(it.context_expr, ast.Call) else it.context_expr)) for it in p.items):
+                prot = True
+            if isinstance(p, ast.Try) and p.finalbody:
+                restores = any(isinstance(y, ast.Call) and (lambda rr: rr is not None and rr.qual == r.qual)(repo.resolve_expr(mod, y.func)) for st in p.finalbody for y in ast.walk(st))
+                if restores:
+                    prot = True
+            child, p = p, getattr(p, "_parent", None)
+        if not prot:
+            # old = seterr(..)  directly followed by  try: .. finally: seterr(**old)
+            st = x
+            while getattr(st, "_parent", None) is not None and not isinstance(st, ast.stmt):
+                st = st._parent
+            blk = getattr(st, "_parent", None)
+            for fld in ("body", "orelse", "finalbody"):
+                seq = getattr(blk, fld, None) if blk is not None else None
+                if isinstance(seq, list) and st in seq:
+                    i = seq.index(st)
+                    nxt = seq[i + 1] if i + 1 < len(seq) else None
+                    if isinstance(nxt, ast.Try) and nxt.finalbody and any(isinstance(y, ast.Call) and (lambda rr: rr is not None and rr.qual == r.qual)(repo.resolve_expr(mod, y.func)) for s2 in nxt.finalbody for y in ast.walk(s2)):
+                        prot = True
+        out.append((x, r.qual, prot))
+    return out
+
+
+def _external_state(ctx, world, core_mods):
+    """A11.state, external clause: the differentiation path does not leave NumPy's / the interpreter's global state
+    changed - a setter is only called under a restoring context manager or with its restore in a `finally`"""
+    import textwrap
+
+    # the matcher must still recognise the construct it is there for (today's tree has no instance)
+    probe = ast.parse(textwrap.dedent("""
+        import numpy as onp
+        def rule(x):
+            old = onp.seterr(divide="raise")
+            try:
+                y = 1 / x
+            except FloatingPointError:
+                y = helper(x)
+            onp.seterr(**old)
+            return y
+        def fine(x):
+            old = onp.seterr(divide="raise")
+            try:
+                return 1 / x
+            finally:
+                onp.seterr(**old)
+    """))
+    for n_ in ast.walk(probe):
+        for c_ in ast.iter_child_nodes(n_):
+            c_._parent = n_
+
+    class _R:
+        def __init__(self, q):
+            self.qual = q
+
+    class _ProbeRepo:
+        def resolve_expr(self, mod, e):
+            if isinstance(e, ast.Attribute) and isinstance(e.value, ast.Name) and e.value.id == "onp":
+                return _R("numpy." + e.attr)
+            return None
+
+    got = [(q, p_) for _, q, p_ in _external_setter_sites(_ProbeRepo(), None, probe)]
+    if sorted(p_ for _, p_ in got) != [False, False, True, True]:
+        raise AnalysisError(f"A11 external-state matcher no longer recognises its positive example ({got})")
+    bad = 0
+    n = 0
+    for mod in core_mods:
+        for x, q, prot in _external_setter_sites(world.repo, mod, mod.tree):
+            n += 1
+            fq = _enclosing_def(x)
+            where = getattr(fq, "name", "<module>")
+            if prot:
+                ctx.ob("A11.state", f"{mod.name}.{where}: {q} restored in finally / context manager", True, loc_of(mod, x))
+            else:
+                bad += 1
+                ctx.fail("A11.state", f"{mod.name}.{where}:{q}", f"external-state:{mod.name}.{where}:{q}", loc_of(mod, x), f"`{norm_text(x)[:60]}` changes process-global state outside the library and no `finally` / context manager restores it on every exit: an exception between the change and the restore (or a missing restore) leaves the state behind for every later call", "a differentiation that raises inside the region (an unsupported configuration, a missing rule at second order), then any unrelated differentiation in the same process")
+    if not bad:
+        ctx.ob("A11.state", f"no unrestored change of external global state (NumPy error state / print options, warnings filters, RNG seeds, interpreter limits); {n} protected site(s); matcher verified on its positive example", True, "autograd/*", nontrivial=True)
+
+
 def global_effects(ctx, world, thread=False):
     ctx.describe("A11", "the only process-global state written by code reachable from a differentiation call is the trace depth counter: registries (primitive_vjps, primitive_jvps, notrace_primitives, Box.type_mappings/types, VSpace.mappings, sparse_object_types) are written only by the registration API; no function carries a memo/cache (module-level container mutated in a function, `global` rebinding, lru_cache); A11.thread: every such counter lives in a threading.local")
     core_mods = [m for m in world.repo.mods.values() if not m.name.startswith(("autograd.scipy", "autograd.misc", "autograd.test_util"))]
@@ -835,6 +948,7 @@ def global_effects(ctx, world, thread=False):
                     )
     ctx.ob("A11.state", "no nested function writes state captured from its factory's scope", True, "autograd/*", nontrivial=True)
     ctx.ob("A11.state", "no global writer outside the registration API and the trace counter", True, "autograd/*", nontrivial=True)
+    _external_state(ctx, world, core_mods)
     # singletons: module-level instances of repo classes whose methods store attributes
     n_single = 0
     for mod in core_mods:
